@@ -8,6 +8,7 @@ pub mod ops;
 pub mod ops2;
 pub mod ops3;
 pub mod ops4;
+pub mod ops5;
 
 use crate::driver::{Acc, CheckImpl, Tier, Viol, announce};
 use crate::fhe::{BACKENDS, EvalSpec, PrepSpec, RunOut, RunResult, Window, WindowMode, backend};
@@ -550,6 +551,7 @@ pub fn sweep(backend_name: &str, op: &str, count: u64) {
             && let Some(vv) = &o.violation
         {
             println!("  detail: {}", vv.2);
+            println!("  replay: {}", case.to_json());
         }
         println!(
             "{} adm={} decl={} hwm={} n={} r={}{} bin={} bkey={} bres={} kin={} kkey={} kres={} ds={}",
